@@ -1,3 +1,4 @@
+import Perp.Spec.GhostReg
 import Perp.Spec.World
 import Perp.Props.ModelStep
 import Perp.Spec.Monitor
@@ -6,6 +7,7 @@ import Perp.Spec.Registry
 import Perp.Spec.Roles
 import Perp.Spec.Scope
 import Perp.Spec.LimitV
+import Perp.Spec.WithdrawExact
 import Perp.Model.Fault
 import Driver.WorldParse
 
@@ -43,6 +45,8 @@ structure WHist where
   /-- what the deployment was ASKED to create, per vAMM id: the fields of the `CFG` line's `v<id>.init` token
       (quote reserve, base reserve, funding period, toll, spread, fluctuation limit, holding cap, OI cap, registered, opened) -/
   inits : List (Nat × List Nat) := []
+  /-- ghost registry (`Spec/GhostReg.lean`): the insurance fund's list as the MODEL writes it along the observed transactions -/
+  ghostReg : Option (List Nat) := none
 
 /-- the deployment's instantiate / wiring parameters against the first observation of the deployed contracts: every field the
     deployment passed must be the field the contract stores (a vAMM whose `instantiate` crosses two ratios of the same type, or
@@ -442,10 +446,16 @@ def handleWObs (acc : Acc) (h : WHist) (kv : KV) (_line : String) : Acc × WHist
             | some x => x.cfg.pricefeed == FEED && x.cfg.marginEngine == ENGINE   -- … and the market reads THE price feed
             | none => true)
          | _ => true)
-      let acc := (allChecks step ++ extraChecks step ++ extraChecks2 step ++ extraChecks3 step ++ extraChecks4 step ++ extraChecks5 step ++ extraChecks6 step ++ extraChecks7 step).foldl (fun a pc =>
+      let acc := (allChecks step ++ extraChecks step ++ extraChecks2 step ++ extraChecks3 step ++ extraChecks4 step ++ extraChecks5 step ++ extraChecks6 step ++ extraChecks7 step ++ extraChecks8 step).foldl (fun a pc =>
         pc.2.foldl (fun a tag =>
           if pc.1 == "C07" && !c07InScope then a.hypCount "c07:outside-the-quantifier(engine-or-market-re-wired-to-another-fund-pool-or-feed)" else
           a.report "SPECFAIL" pc.1 (if pc.1 == "C07" then s!"{kind}:{tag}{modelVerdict}" else s!"{kind}:{tag}") tline) a) acc
+      -- ghost registry: C14 frame (the stored list is what the accepted adds / removes leave) and C07 with "registered" from the history
+      let gPre := h.ghostReg.getD h.last.w.ifund.vamms
+      let gPost := Spec.GhostReg.next gPre h.last.w obs.w env sender funds ok tx
+      let acc := (Spec.GhostReg.regFrame gPost obs.w).foldl (fun (a : Acc) t => a.report "SPECFAIL" "C14" (kind ++ ":" ++ t) tline) acc
+      let acc := (Spec.GhostReg.regCheck gPre step).foldl (fun (a : Acc) t =>
+        if !c07InScope then a else a.report "SPECFAIL" "C07" (kind ++ ":" ++ t ++ modelVerdict) tline) acc
       -- C14: the insurance fund's membership queries agree with its stored registry (after every transaction)
       let acc :=
         match _okv.get? "if.qall" with
@@ -526,7 +536,7 @@ def handleWObs (acc : Acc) (h : WHist) (kv : KV) (_line : String) : Acc × WHist
           if ok then
             (slicesOfModelErr kind e).foldl (fun a p => a.report "DISAGREE" p s!"{kind}:accept(model-err:{errTag e},impl-ok)" tline) acc
           else acc
-      (acc, next, some step)
+      (acc, { next with ghostReg := some gPost }, some step)
 
 /-- `QRY` lines: the engine's own query answers against the model's query functions on the same state -/
 def handleWQry (acc : Acc) (h : WHist) (kv : KV) (line : String) : Acc :=
